@@ -5,7 +5,10 @@ package bot
 import (
 	"github.com/Tnze/go-mc/net"
 	pk "github.com/Tnze/go-mc/net/packet"
+	"github.com/Tnze/go-mc/net/queue"
 )
+
+type PacketQueueVerif = queue.Queue[pk.Packet]
 
 // Verification hooks: access to the unexported login digest functions and to the client side of the
 // encryption handshake. Add-only; absent without the tag.
@@ -21,3 +24,6 @@ func TwosComplementVerif(p []byte) []byte { return twosComplement(p) }
 func HandleEncryptionRequestVerif(conn *net.Conn, c *Client, p pk.Packet) error {
 	return handleEncryptionRequest(conn, c, p)
 }
+
+// WarpConnVerif builds the queue-backed connection a Client plays through (warpConn is unexported).
+func WarpConnVerif(c *net.Conn, qr, qw PacketQueueVerif) *Conn { return warpConn(c, qr, qw) }
